@@ -22,7 +22,7 @@ class Budget(Exception):
 
 
 class Frame:
-    __slots__ = ("body", "fid", "sub", "depth", "path", "parent", "rpo_index", "loop_heads", "promoted_cache", "names", "site")
+    __slots__ = ("body", "fid", "sub", "depth", "path", "parent", "rpo_index", "loop_heads", "promoted_cache", "names", "site", "counter_locals", "_defs")
 
     def __init__(self, body, fid, sub, depth, parent, site=None):
         self.body = body
@@ -37,6 +37,7 @@ class Frame:
         self.rpo_index = {b: i for i, b in enumerate(order)}
         self.loop_heads = {lp["header"] for lp in CFG.natural_loops(body)} if len(body["blocks"]) > 1 else set()
         self.promoted_cache = {}
+        self.counter_locals = counter_locals(body) if self.loop_heads else set()
         self.names = {}
         for d in body.get("debug", []):
             if not d["p"]["p"]:
@@ -49,6 +50,49 @@ class Frame:
             out.append(f.path)
             f = f.parent
         return list(reversed(out))
+
+
+def counter_locals(body):
+    """Locals whose every assignment (other than initialisation by a constant) has the form
+    `x = x + small constant` (through AddWithOverflow): loop counters (counter axiom)."""
+    defs = {}
+    tmp_add = {}
+    for blk in body["blocks"]:
+        for s in blk["stmts"]:
+            if s["k"] != "assign" or s["p"]["p"]:
+                continue
+            rv = s["rv"]
+            l = s["p"]["l"]
+            if rv["k"] == "bin" and rv["op"] in ("AddWithOverflow", "Add"):
+                a, b = rv["a"], rv["b"]
+                pa = a.get("c") or a.get("m")
+                kb = b.get("k")
+                if pa is not None and not pa["p"] and kb and "int" in kb and 0 <= int(kb["int"]) <= 65536:
+                    tmp_add[l] = pa["l"]
+            defs.setdefault(l, []).append(rv)
+    out = set()
+    for l, rvs in defs.items():
+        if not body["locals"][l].get("user"):
+            continue
+        ok = True
+        inc = 0
+        for rv in rvs:
+            if rv["k"] == "use":
+                o = rv["a"]
+                k = o.get("k")
+                if k and "int" in k and 0 <= int(k["int"]) <= (1 << 32):
+                    continue
+                p = o.get("c") or o.get("m")
+                if p is not None and p["p"] == [{"f": 0, "ty": p["p"][0].get("ty")}] if p and p["p"] and isinstance(p["p"][0], dict) else False:
+                    if tmp_add.get(p["l"]) == l:
+                        inc += 1
+                        continue
+                ok = False
+            else:
+                ok = False
+        if ok and inc:
+            out.add(l)
+    return out
 
 
 class Obligation:
@@ -93,6 +137,7 @@ class Engine:
         self.inline_filter = None  # callable(path) -> bool: may this local callee be inlined
         self.on_call = None  # hook(eng, st, frame, f, args, site) -> outcomes or None
         self.trace = False
+        self.counters = set()  # loop-head phi symbols that are loop counters (counter axiom)
         self.sym_terms = {}  # sym -> term description (div/mod/mul/cast provenance) for TERM rules
         self.impl_index = {}
         for imp in facts.impls:
@@ -196,7 +241,7 @@ class Engine:
                     hk = (b, key)
                     old = head_in.get(hk)
                     if old is not None:
-                        j = self.M.join_states(old, s, "%s:bb%d" % (fr.fid, b))
+                        j = self.M.join_states(old, s, "%s:bb%d" % (fr.fid, b), loop_head=True, counter_locs={(fr.fid, l) for l in fr.counter_locals})
                         j.key = key
                         head_iter[hk] += 1
                         if head_iter[hk] > 8:
